@@ -100,6 +100,11 @@ def build_cells(tier, backend):
     for lk, rk in itertools.product(KINDS, repeat=2):
         # the documented rule: a conditional is floating
         cells.append((f"if:{lk}:{rk}", f"({KINDS[lk][0]} if j.pt() > 1 else {KINDS[rk][-1]})", "obj", ("floating", 2)))
+    # integer literals around the 32-bit edges keep their value (alone, negated, compared, and in a conditional)
+    for v in (2147483647, 2147483648, 3000000000, 4294967295, 4294967296, -2147483648, -2147483649, -3000000000):
+        cells.append((f"lit:int:{v}", f"({v})", "obj", ("integral", None)))
+        cells.append((f"lit:cmp:{v}", f"(j.nTrk() < {v})", "obj", ("bool", None)))
+        cells.append((f"lit:if:{v}", f"({v} if j.pt() > 1 else 1)", "obj", ("any", None)))
     for ek in KINDS:
         elem = KINDS[ek][0]
         seq = f"e.{coll}('A').Select(lambda j: {elem})"
@@ -164,7 +169,7 @@ def post(outs, events):
             if not j.events:
                 continue
             er = j.events[0]
-            r = classify_event(c.text, events[er.event], er, tol=c.info.get("tol", 0.0))
+            r = classify_event(c.text, events[er.event], er, tol=c.info.get("tol", 0.0), int64=str(c.info.get("cell", "")).startswith("lit:"))
             stats["executions"] += 1
             if r is None:
                 stats["agree"] += 1
